@@ -92,7 +92,8 @@ let check_tables ip sp : string option =
 let mk_cfg (v : string) (o : string) : config =
   { cfg_ca = ca_id; cfg_key = key_id;
     cfg_org = chars_of_hex (String.sub o 1 (String.length o - 1));
-    cfg_validity = z_of_dec (String.sub v 1 (String.length v - 1)) }
+    (* v<ms>[,<ca-kind>]: the CA kind only matters to the harness (signer = ca abstraction) *)
+    cfg_validity = z_of_dec (List.hd (String.split_on_char ',' (String.sub v 1 (String.length v - 1)))) }
 
 let zle a b = Z.leb a b
 let zmax a b = if Z.leb a b then b else a
